@@ -131,6 +131,13 @@ func c18Body(s *simkit.Sim, rc *simkit.RunCtx) {
 			}
 			// the path carries the identifier's segments, in order, and ends in did.json
 			p := r.Path
+			if c.kind == "dot-segments" {
+				if want := "/" + strings.Join(c.segments, "/") + "/did.json"; p != want {
+					s.Fail("C18.origin", "path:dot-segments", "resolving %s requested path %s, the identifier encodes %s", c.didStr, p, want)
+					return false
+				}
+				continue
+			}
 			if !strings.HasSuffix(p, "/did.json") {
 				s.Fail("C18.origin", "path:"+c.kind, "resolving %s requested %s", c.didStr, r.URL)
 				return false
@@ -158,7 +165,7 @@ func c18Body(s *simkit.Sim, rc *simkit.RunCtx) {
 
 	// ---- generated identifiers ----
 	ncases := 3 + s.D.Decide("cases", 5)
-	shapes := []string{"domain", "domain", "domain-port", "domain-path", "domain-port-path", "mixed-case", "encoded-segment",
+	shapes := []string{"domain", "domain", "domain-port", "domain-path", "domain-port-path", "mixed-case", "encoded-segment", "dot-segments", "dot-segments",
 		"ipv4", "ipv6", "ipv4-port", "ipv6-port", "user-info", "user-info-port", "encoded-slash-in-host", "encoded-query-in-host", "encoded-fragment-in-host"}
 	servers := []string{"correct", "correct", "other-id", "redirect-other-host", "redirect-http", "redirect-same-host", "content-type-html", "status-500", "not-found"}
 	for ci := 0; ci < ncases && !s.Failed(); ci++ {
@@ -179,6 +186,9 @@ func c18Body(s *simkit.Sim, rc *simkit.RunCtx) {
 			domain = "Remote" + fmt.Sprint(s.D.Decide("domain", 5)) + ".SIM"
 		case "encoded-segment":
 			segs = []string{"alice%2Band%2Bbob", "p"}
+		case "dot-segments":
+			// "." and ".." are path segments like any other: refused, or requested as they are - never collapsed into another path
+			segs = [][]string{{"users", "..", "admin"}, {".", "x"}, {"tenants", "x", "..", "..", ".."}, {"a", ".", "b"}, {".."}}[s.D.Decide("dots", 5)]
 		}
 		hostPart := domain
 		c.host = domain
@@ -267,7 +277,7 @@ func c18Body(s *simkit.Sim, rc *simkit.RunCtx) {
 				s.Fail("C18.binding", "resolved:"+c.server, "%s resolved although the server answered with %s", c.didStr, c.server)
 				return
 			}
-		} else if c.host != "" && c.server == "correct" {
+		} else if c.host != "" && c.server == "correct" && c.kind != "dot-segments" {
 			s.Fail("C18.binding", "correct-refused:"+c.kind, "%s did not resolve although its host served the correct document: %v", c.didStr, rerr)
 			return
 		}
